@@ -1602,7 +1602,7 @@ impl Runtime {
                         },
                         Some('~') => out.push('~'),
                         Some('%') => out.push('\n'),
-                        other => return runtime(format!("format: unsupported directive ~{}", other.map(String::from).unwrap_or_default())),
+                        other => return unsupported(format!("format directive ~{}", other.map(String::from).unwrap_or_default())),
                     }
                 }
                 if rest.next().is_some() {
